@@ -503,6 +503,61 @@ fn server_shutdown(seed: u64) {
     let mut x = seed.wrapping_mul(6364136223846793005).wrapping_add(1442695040888963407);
     let mut next = move |n: u64| { x = x.wrapping_mul(6364136223846793005).wrapping_add(1442695040888963407); (x >> 33) % n };
     let mut rounds = 0;
+    // variant A (first): one large value read back by pipelined GETs while the client reads slowly, so that the signal
+    // arrives while the handler is suspended inside write_frame (the socket buffers are full)
+    for round in 0..2u64 {
+        rounds += 1;
+        let dir = tempfile::tempdir().unwrap();
+        let mut c = SConf::default();
+        c.path(dir.path()).concurrency(2).max_file_size(1 << 28).sync(SyncStrategy::None).merge_check_interval_ms(1_000_000_000).merge_check_jitter(0.0);
+        let kv = c.open().unwrap();
+        let handle = kv.get_handle();
+        let port = { let l = std::net::TcpListener::bind("127.0.0.1:0").unwrap(); l.local_addr().unwrap().port() };
+        let (stop_tx, stop_rx) = tokio::sync::oneshot::channel::<()>();
+        let mut nc = bitcask::net::Config::default();
+        nc.host = "127.0.0.1".parse().unwrap(); nc.port = port;
+        let big = vec![b'x'; (12 << 20) + next(1000) as usize];
+        let gets = 4usize;
+        let mut wire = req(&[b"SET", b"big", &big]);
+        for _ in 0..gets { wire.extend(req(&[b"GET", b"big"])); }
+        let delay_ms = 120 + next(200);
+        let reply_len = format!("${}\r\n", big.len()).len() + big.len() + 2;
+        let got: Result<Vec<u8>, String> = rt.block_on(async {
+            let server = nc.async_server(handle, async { let _ = stop_rx.await; }).await.map_err(|e| format!("server start: {}", e))?;
+            let srv = tokio::spawn(server.run());
+            let s = tokio::net::TcpStream::connect(("127.0.0.1", port)).await.map_err(|e| format!("connect: {}", e))?;
+            let (mut rd, mut wr) = s.into_split();
+            let w2 = wire.clone();
+            let writer = tokio::spawn(async move { let _ = wr.write_all(&w2).await; let _ = wr.flush().await; wr });
+            let mut got = Vec::new();
+            let mut buf = vec![0u8; 65536];
+            // wait for +OK, then stop reading until after the signal
+            while got.len() < 5 { match tokio::time::timeout(std::time::Duration::from_secs(20), rd.read(&mut buf[..5 - got.len()])).await { Ok(Ok(0)) | Ok(Err(_)) => break, Ok(Ok(k)) => got.extend(&buf[..k]), Err(_) => return Err("no reply to SET within 20 s".to_string()) } }
+            tokio::time::sleep(std::time::Duration::from_millis(delay_ms)).await;
+            let _ = stop_tx.send(());
+            tokio::time::sleep(std::time::Duration::from_millis(150)).await;
+            loop { match tokio::time::timeout(std::time::Duration::from_secs(20), rd.read(&mut buf)).await { Ok(Ok(0)) => break, Ok(Ok(k)) => got.extend(&buf[..k]), Ok(Err(_)) => break, Err(_) => return Err("the server did not close the connection within 20 s after the shutdown signal".to_string()) } }
+            let _ = writer.await;
+            let _ = tokio::time::timeout(std::time::Duration::from_secs(10), srv).await;
+            Ok(got)
+        });
+        let hist = format!("seed {} round A{}: SET big <{} bytes>; {} pipelined GET big; the client reads +OK, pauses, the shutdown signal fires after {} ms, then the client drains the stream", seed, round, big.len(), gets, delay_ms);
+        match got {
+            Err(e) => { println!("{{\"found\": true, \"kind\": \"shutdown\", \"props\": \"C16\", \"history\": {}, \"observed\": {}, \"expected\": {}}}", js(&hist), js(&e), js("the connection ends")); std::process::exit(0); }
+            Ok(g) => {
+                let ok_prefix = g.len() >= 5 && &g[..5] == b"+OK\r\n";
+                let rest = if ok_prefix { g.len() - 5 } else { 0 };
+                let whole = rest / reply_len;
+                let mut good = ok_prefix && rest % reply_len == 0 && whole <= gets;
+                if good { for i in 0..whole { let r = &g[5 + i * reply_len..5 + (i + 1) * reply_len]; let hl = reply_len - big.len() - 2; if r[hl..hl + big.len()] != big[..] || &r[hl + big.len()..] != b"\r\n" { good = false; } } }
+                if !good && !g.is_empty() {
+                    println!("{{\"found\": true, \"kind\": \"shutdown\", \"props\": \"C16\", \"history\": {}, \"observed\": {}, \"expected\": {}}}", js(&hist), js(&format!("the client received {} bytes = +OK, {} whole GET replies and {} bytes of a torn reply, then end of stream", g.len(), whole, rest - whole * reply_len)), js("only complete replies, then end of stream"));
+                    std::process::exit(0);
+                }
+            }
+        }
+        drop(kv);
+    }
     for round in 0..8u64 {
         rounds += 1;
         let dir = tempfile::tempdir().unwrap();
@@ -638,6 +693,31 @@ mod store {
         }
         // the recovered store must stay usable
         if let Err(e) = h.set(b("zz-after-crash"), b("1")) { report("crash-wedged", "C03", &hist, format!("set after restart failed: {}; files {:?}", e, files(d)), "Ok"); }
+        // ... and what it acknowledges from now on must survive the next restart as well (a kill can leave files behind
+        // that only do harm later, e.g. a stale hint file whose id the next active file takes)
+        let mut m2 = got.clone();
+        m2.insert("zz-after-crash".into(), "1".into());
+        let mut post: Vec<String> = vec!["set zz-after-crash 1".into()];
+        for (i, k) in keys.iter().enumerate() {
+            if i % 2 == 0 {
+                if let Err(e) = h.set(b(k), b("post-crash")) { report("crash-wedged", "C03", &hist, format!("set {} after restart failed: {}", k, e), "Ok"); }
+                m2.insert(k.clone(), "post-crash".into()); post.push(format!("set {} post-crash", k));
+            } else {
+                if let Err(e) = h.del(b(k)) { report("crash-wedged", "C03", &hist, format!("del {} after restart failed: {}", k, e), "Ok"); }
+                m2.remove(k); post.push(format!("del {}", k));
+            }
+        }
+        let files_before = files(d);
+        drop(h); drop(kv);
+        let kv2 = match mk_conf(d, max, mode).open() { Ok(k) => k, Err(e) => report("crash-second-restart", "C03", &hist, format!("second open failed: {}; files {:?}", e, files(d)), "the directory can be opened") };
+        let h2 = kv2.get_handle();
+        let mut got2: BTreeMap<String, String> = BTreeMap::new();
+        let mut keys2 = keys.clone(); keys2.push("zz-after-crash".into());
+        for k in keys2.iter() { match h2.get(b(k)) { Ok(Some(v)) => { got2.insert(k.clone(), String::from_utf8_lossy(&v).to_string()); } Ok(None) => {} Err(e) => report("crash-second-restart", "C03", &hist, format!("get {} failed after the second restart: {}", k, e), "a value or None") } }
+        if got2 != m2 {
+            report("crash-second-restart", "C03", &format!("{} | after the first restart: {} (all acknowledged); clean restart", hist, post.join("; ")),
+                   format!("after the second restart the store reads {:?}; files before it {:?}", got2, files_before), &format!("{:?}", m2));
+        }
         println!("{{\"found\": false}}");
     }
 
@@ -836,7 +916,18 @@ mod store {
                     for (_, f, _, _) in kd.iter() { *live.entry(*f).or_default() += 1; }
                     // after a failed operation only "never under-count" is required (the record of the failed operation may be counted)
                     for (f, l, _d, _b) in st.iter() { let exp = live.get(f).cloned().unwrap_or(0); if (had_fault && *l < exp) || (!had_fault && *l != exp) { report(label, "C19", &hist, format!("op {} file {} live_keys {} (stats {:?})", i, f, l, st), &format!("{}", exp)); } }
-                    for (f, n) in live.iter() { if !st.iter().any(|(g, _, _, _)| g == f) { report(label, "C19", &hist, format!("op {} file {} holds {} live keys but has no statistics entry (stats {:?})", i, f, n, st), "an entry with that live count"); } } }
+                    for (f, n) in live.iter() { if !st.iter().any(|(g, _, _, _)| g == f) { report(label, "C19", &hist, format!("op {} file {} holds {} live keys but has no statistics entry (stats {:?})", i, f, n, st), "an entry with that live count"); } }
+                    // dead bytes: in a fault-free history a data file consists of complete entries only, so the dead entries of a file
+                    // take exactly its size minus the sizes of its live entries
+                    if !had_fault && !hist.contains("precreate") {
+                        let mut live_bytes: BTreeMap<u64, u64> = BTreeMap::new();
+                        for (_, f, _, len) in kd.iter() { *live_bytes.entry(*f).or_default() += *len; }
+                        for (f, _l, _d, bytes) in st.iter() {
+                            let size = match std::fs::metadata(dir.path().join(format!("{}.bitcask.data", f))) { Ok(m) => m.len(), Err(_) => continue };
+                            let exp = size - live_bytes.get(f).cloned().unwrap_or(0);
+                            if *bytes != exp { report(label, "C19", &hist, format!("op {} file {} ({} bytes, {} of them live) dead_bytes {} (stats {:?})", i, f, size, size - exp, bytes, st), &format!("{}", exp)); }
+                        }
+                    } }
                 _ => panic!("bad op {}", op),
             }
         }
@@ -851,6 +942,7 @@ mod store {
             (64, "all", "set a 1; set b 2; set c 3; set a 4; del b; checkstats; merge; checkall; get b; checkstats; reopen; checkall; get b; checkstats"),
             (1 << 20, "all", "set a 1; del a; set a 2; merge; get a; reopen; get a; merge; reopen; get a; checkstats"),
             (0, "all", "set a 1; set b 2; merge; merge; checkall; set c 3; merge; reopen; checkall; checkstats"),
+            (1 << 20, "all", "set a 1; set a 22222; set a 333; set b 1; del b; set b 4444; checkstats; reopen; checkstats; checkall"),
             (30, "dead", "set a 1; set b 2; set a 3; merge; checkall; reopen; checkall; checkstats"),
             (0, "all", "precreate-data 1; set a 1; set b 2; get a; get b; reopen; get a; get b"),
             // a rollover that fails (the next file already exists), the obstacle is removed, the operation is retried (C20)
@@ -873,7 +965,7 @@ mod store {
             for _ in 0..n {
                 let k = format!("k{}", next(3));
                 match next(10) {
-                    0..=3 => ops.push(format!("set {} v{}", k, next(5))),
+                    0..=3 => { let d = next(5); ops.push(format!("set {} v{}{}", k, d, "x".repeat((d * 3) as usize))) }   // values of different sizes
                     4..=5 => ops.push(format!("del {}", k)),
                     6 => ops.push("merge".into()),
                     7 => ops.push("reopen".into()),
@@ -905,7 +997,7 @@ mod store {
             let v: Vec<&str> = ops.iter().map(|s| s.as_str()).collect();
             run_history(max, mode, &v, "history");
         }
-        println!("{{\"found\": false, \"searched\": \"11 curated (two with a failing rollover), 40 pseudo-random histories with full merges and 24 with partial merges (no deletes), (set/del/get/merge/reopen over 3 keys, max_file_size in 0,40,100,1M) against the map model incl. live-key accounting\"}}");
+        println!("{{\"found\": false, \"searched\": \"12 curated (two with a failing rollover), 40 pseudo-random histories with full merges and 24 with partial merges (no deletes), (set/del/get/merge/reopen over 3 keys, max_file_size in 0,40,100,1M) against the map model incl. per-file live-key and dead-byte accounting\"}}");
     }
 
     /// D11: an append that fails mid-entry (RLIMIT_FSIZE makes write(2) fail with EFBIG after a partial write)
